@@ -33,6 +33,9 @@ CALLS = ['send_data', 'end_stream', 'reset_stream', 'increment_flow_control_wind
          'push_stream', 'advertise_alternative_service', 'local_flow_control_window',
          'remote_flow_control_window', 'acknowledge_received_data', 'prioritize',
          'send_headers']
+MUST_KNOW_STREAM = ('send_data', 'end_stream', 'reset_stream', 'increment_flow_control_window',
+                    'local_flow_control_window', 'remote_flow_control_window',
+                    'advertise_alternative_service', 'push_stream')
 NO_STREAM_CALLS = ['ping', 'update_settings', 'close_connection', 'increment_conn_window',
                    'data_to_send', 'get_next_available_stream_id', 'open_counts',
                    'advertise_origin']
@@ -116,6 +119,13 @@ def make(client, history, upgrade, with_stream):
             exc = e
         if exc is None:
             note('ok')
+            if with_stream and name in MUST_KNOW_STREAM and pre.conn_closed is None:
+                # a call that acts on an existing stream cannot succeed for an id that is
+                # not in the stream table (closed-and-forgotten or never used)
+                known = False
+                for l in live:
+                    known = s_or(known, s_eq(sid, l))
+                check(known, 'call-on-unknown-stream-succeeds:' + name, sid)
             return
         note(type(exc).__name__)
         ok_types = (h2.exceptions.H2Error, ValueError, TypeError)
